@@ -95,7 +95,7 @@ def ill_items(r):
 
 
 def plan(tier, seed):
-    specs = [{"kind": "labelled", "spellings": 3 if tier == "quick" else 8}, {"kind": "syntactic"}]
+    specs = [{"kind": "labelled", "spellings": 3 if tier == "quick" else 8}, {"kind": "syntactic"}, {"kind": "reconfigured"}]
     n = 10 if tier == "quick" else 44
     for i in range(n):
         specs.append({"kind": "random", "n": 4000 if tier == "quick" else 40000, "depth": (2 + i % 3) if tier == "quick" else (3 + i % 4)})
@@ -186,6 +186,89 @@ def compile_case(ctx, env, text, expect_ok, cls, label, ast=None):
         ctx.sample({"text": text, "expected": "compile" if expect_ok else "reject", "label": label, "outcome": out.desc()})
 
 
+def run_reconfigured(ctx):
+    """ONE environment object over time: a query text is used through every text-taking entry point while the
+    configuration accepts it; the configuration is then changed by documented means (type checks switched on, integer
+    limits narrowed on the instance, a function removed from the registry) and the identical text must be refused - by
+    compile and by the entry point that receives it, without touching the document. Then the configuration is put back
+    and the text must be accepted again (a well-formed, well-typed RFC query compiles)."""
+    import asyncio
+
+    import jsonpath
+
+    def entry_points(env, text, doc):
+        async def fa():
+            return await env.findall_async(text, doc)
+
+        async def fi():
+            return [m async for m in await env.finditer_async(text, doc)]
+        return (("compile", lambda: env.compile(text)), ("findall", lambda: env.findall(text, doc)), ("finditer", lambda: env.finditer(text, doc)), ("match", lambda: env.match(text, doc)), ("query", lambda: env.query(text, doc)),
+                ("findall_async", lambda: asyncio.run(fa())), ("finditer_async", lambda: asyncio.run(fi())))
+
+    def narrow(env):
+        env.max_int_index, env.min_int_index = 5, -5
+
+    def widen(env):
+        env.max_int_index, env.min_int_index = (2 ** 53) - 1, -(2 ** 53) + 1
+    saved = {}
+
+    def remove(name):
+        def f(env):
+            saved[name] = env.function_extensions.pop(name)
+        return f
+
+    def restore(name):
+        def f(env):
+            env.function_extensions[name] = saved[name]
+        return f
+    scenarios = [
+        ("type-checks-switched-on", lambda: jsonpath.JSONPathEnvironment(well_typed=False), lambda e: setattr(e, "well_typed", True), None,
+         ["$[?count(@..*)]", "$[?length(@.a)]", "$[?@.* == 1]", "$.a[?length(@.*) > 1]", "$[?match(@.a, 'x') == true]", "$[?count('abc') == 3]", "$[?count(@.a[?length(@.b)]) > 0]"]),
+        ("limits-narrowed-on-the-instance", jsonpath.JSONPathEnvironment, narrow, widen, ["$.b[7]", "$.b[-6]", "$.b[1:9]", "$.b[::6]", "$[?@[6]]", "$..[0, 6]", "$[?count(@[-7:]) > 0]"]),
+        ("function-removed-from-the-registry", jsonpath.JSONPathEnvironment, remove("count"), restore("count"), ["$[?count(@.*) == 1]", "$.a[?count(@..*) > 0]", "$[?!(count(@.a) == 0)]"]),
+        ("function-removed-from-the-registry", jsonpath.JSONPathEnvironment, remove("match"), restore("match"), ["$[?match(@.a, 'x.*')]", "$[?@.b || match(@.a, 'x')]"]),
+    ]
+    for sname, make, change, undo, texts in scenarios:
+        for warm in (1, 3):
+            for between in (0, 1, 200):
+                env = make()
+                doc = {"a": [1, {"b": 2}, "xy"], "b": list(range(10))}
+                case = {"kind": "reconfigured"}
+                for _w in range(warm):
+                    for text in texts:
+                        for ename, fn in entry_points(env, text, doc):
+                            o = impl.call(fn)
+                            if not o.ok:
+                                ctx.violation("query-refused-under-the-configuration-that-accepts-it:%s:%s" % (sname, ename), case, {"text": text, "entry_point": ename, "error": o.desc()})
+                                return
+                for i in range(between):
+                    impl.call(env.findall, "$.filler%d" % i, doc)
+                change(env)
+                for text in texts:
+                    spy = _Spy(doc)
+                    before = hooks.STATE.evaluate_calls
+                    for ename, fn in entry_points(env, text, spy):
+                        o = impl.call(fn)
+                        ctx.evaluation()
+                        ctx.count("refusals_checked_after_a_configuration_change")
+                        if o.ok or not isinstance(o.exc, jsonpath.JSONPathError):
+                            ctx.violation("query-still-accepted-after-the-configuration-changed:%s:%s" % (sname, ename), case, {"text": text, "scenario": sname, "entry_point": ename, "uses_before": warm, "other_queries_between": between, "outcome": "returned %s" % type(o.value).__name__ if o.ok else o.desc()})
+                            return
+                    if spy.touched or hooks.STATE.evaluate_calls != before:
+                        ctx.violation("refused-query-reached-the-document-after-the-configuration-changed:%s" % sname, case, {"text": text, "document_accesses": spy.touched})
+                        return
+                if undo is not None:
+                    undo(env)
+                    for text in texts:
+                        for ename, fn in entry_points(env, text, doc):
+                            o = impl.call(fn)
+                            if not o.ok:
+                                ctx.violation("well-formed-query-refused-after-the-configuration-was-put-back:%s:%s" % (sname, ename), case, {"text": text, "entry_point": ename, "error": o.desc()})
+                                return
+                ctx.cell("configurations", "reconfigured over time: %s" % sname)
+                ctx.case(h("reconfigured", sname, warm, between), True)
+
+
 def toggled_envs():
     """Type checks enabled by assignment after construction, and by a subclass's __init__."""
     import jsonpath
@@ -243,7 +326,9 @@ def run(spec, ctx):
     r = ctx.rng
     env = jsonpath.JSONPathEnvironment()
     kind = spec["kind"]
-    if kind == "labelled":
+    if kind == "reconfigured":
+        run_reconfigured(ctx)
+    elif kind == "labelled":
         for tenv in toggled_envs():
             for label, item in ill_items(r):
                 for pos in ("top", "not", "and-right", "nested-filter"):
@@ -355,6 +440,10 @@ def finalize(m, tier):
 def replay(case, ctx):
     install()
     import jsonpath
+
+    if case.get("kind") == "reconfigured":
+        run_reconfigured(ctx)
+        return
 
     env = narrow_env() if case.get("narrow") else (toggled_envs()[0] if str(case.get("class", "")).startswith("toggled-on") else jsonpath.JSONPathEnvironment())
     compile_case(ctx, env, case["text"], case["expect_ok"], case["class"], case["label"], case.get("ast"))
